@@ -125,6 +125,22 @@ def formulas_for(g, e, tabs, t):
         c2 = pick(r2)
         t2 = c2[1].split(":")[1]
         if t2 in tabs: out.append("$%s.%s.%s" % (rc, c2[0], colof(t2)))      # reference chain
+  # the SAME target column read through two different relations by one formula (two reference
+  # columns to one table; a reference and a lookup; the row itself and PREVIOUS): each relation
+  # needs its own dependency edge
+  for (rc, target) in refs + reflists:
+    if target not in tabs: continue
+    tc = colof(target)
+    one = lambda c: ("$%s.%s" % (c, tc)) if (c, target) in refs else ("[r.%s for r in $%s]" % (tc, c))
+    for (rc2, target2) in refs + reflists:
+      if target2 == target and rc2 != rc:
+        out.append("[%s, %s]" % (one(rc), one(rc2)))
+    mine = pick(names) if names else "id"
+    out.append("[%s, %s.lookupOne(%s=$%s).%s]" % (one(rc), target, colof(target), mine, tc))
+  if names:
+    a = pick(names)
+    out += ["[$%s, PREVIOUS(rec, order_by='%s').%s]" % (a, a, a),
+            "[$%s, NEXT(rec, order_by='id').%s, %s.lookupOne(id=$id).%s]" % (a, a, t, a)]
   for (rc, target) in reflists:
     if target in tabs:
       tc = colof(target)
@@ -220,7 +236,9 @@ _col = gen._col
 gen.SEEDS["c05_chain"] = [
   [["AddTable", "Rates", [_col("k", "Text"), _col("amount", "Int")]],
    ["AddTable", "People", [
-     _col("k", "Text"), _col("x", "Int"), _col("fav", "Ref:Rates"),
+     _col("k", "Text"), _col("x", "Int"), _col("fav", "Ref:Rates"), _col("fav2", "Ref:Rates"),
+     _col("both", "Any", "($fav.amount or 0) + ($fav2.amount or 0)"),
+     _col("delta", "Any", "($x or 0) - (PREVIOUS(rec, order_by='id').x or 0)"),
      _col("B", "Any", "len(Rates.lookupRecords(k=$k))"),
      _col("A", "Any", "$B + ($x or 0)"),
      _col("A2", "Any", "$B * 1000 + len($fav.k or '')"),
@@ -230,7 +248,8 @@ gen.SEEDS["c05_chain"] = [
                         _col("cnt", "Any", "len(Own.lookupRecords(k=$k))"),
                         _col("acc", "Any", "$cnt * 100 + ($v or 0)")]]],
   [["BulkAddRecord", "Rates", [None, None, None], {"k": ["a", "b", "c"], "amount": [10, 20, 30]}],
-   ["BulkAddRecord", "People", [None, None], {"k": ["a", "b"], "x": [100, 200], "fav": [2, 3]}],
+   ["BulkAddRecord", "People", [None, None], {"k": ["a", "b"], "x": [100, 200], "fav": [2, 3],
+                                              "fav2": [1, 2]}],
    ["BulkAddRecord", "Own", [None, None, None], {"k": ["a", "b", "a"], "v": [1, 2, 3]}]],
 ]
 
